@@ -71,7 +71,12 @@ class Flow:
             return base
         if isinstance(e, ast.Call) and call_name(e) == "getattr" and len(e.args) >= 2:
             base = self.source(e.args[0], frame, loops, depth + 1)
-            return "%s.{%s}" % (base or "?", norm(e.args[1]))
+            a1 = e.args[1]
+            if isinstance(a1, ast.Name) and frame is not None and isinstance(frame.binds.get(a1.id), tuple) and isinstance(frame.binds[a1.id][0], ast.Constant):
+                a1 = frame.binds[a1.id][0]
+            if isinstance(a1, ast.Constant) and isinstance(a1.value, str):
+                return "%s.%s" % (base or "?", a1.value)
+            return "%s.{%s}" % (base or "?", norm(a1))
         if isinstance(e, ast.Call):
             # helper such as cls._line_marking_enum_to_string(x)
             args = [self.source(a, frame, loops, depth + 1) for a in e.args]
@@ -137,7 +142,7 @@ class Flow:
 
     # ---------------------------------------------------------------- walking
     def frame_for(self, cr: CallRef, frame, loops):
-        cls, fn = self.w.funcs[cr.callee]
+        cls, fn = self.w.funcs[cr.callee[:2]]
         params = [a.arg for a in fn.args.args]
         binds = {}
         ps = list(params)
@@ -170,7 +175,7 @@ class Flow:
 
     def walk_builder(self, key, path=()):
         """enumerate leaves of everything a top-level builder returns"""
-        cls, fn = self.w.funcs[key]
+        cls, fn = self.w.funcs[key[:2]]
         fr = Frame(fn, {}, None)
         s = self.w.summary(key)
         for v, g, o in s.returns:
